@@ -257,6 +257,8 @@ def plan(pid, tr, sd):
                 a = tg.struct([("f", a), ("g", tg.random_type(rng, 2))])
             extra.append((tg.describe(a), a))
         cat = cat + extra
+    if pid in ("C01", "C03", "C05", "C09"):
+        cat = cat + [("String", tg.STR)]  # a string on its own (constructed, copied, decoded as a top-level object)
     pls = PLACEMENTS_Q if tr == "quick" else PLACEMENTS_T
     jobs = []
     gens = [dict(variant=0, dim=2)]
@@ -332,12 +334,16 @@ def plan(pid, tr, sd):
                 hs.append([("sets", 1, "view"), ("grow",), ("sets", 1, "handle"), ("sets", 2, "view")])
             for k, h in enumerate(hs):
                 jobs.append((pid, "c10", label, t, gens[0], dict(pls[(i + k) % 2], history=h)))
+            if t[0] == "array" and t[1][0] == "scalar" and any(d is None for d in t[2]):
+                jobs.append((pid, "c10np", label, t, dict(variant=0, dim=40 if len(t[2]) == 1 else 6), dict(pls[i % 2])))
         elif pid == "C11":
-            ms = ["index", "owner"]
+            ms = ["index", "owner", "scalar_array"]
+            if has_kind(t, ("struct",)):
+                ms.append("struct_partial")
             if wmode.has_string(t):
                 ms.append("string")
             if has_kind(t, ("array",)):
-                ms += ["array_len", "bigger_items", "array_shape_instance"]
+                ms += ["array_len", "bigger_items", "array_shape_instance", "negative_dim", "update_int", "ndarray_extra_axis"]
             if has_kind(t, ("uref",)):
                 ms.append("union")
             for k, mis in enumerate(ms):
